@@ -291,3 +291,30 @@ Example C02_ToArray_nonvacuous :
   Select32 [5; 0; 2^63] [0] 1 = Some (2, 191) /\ Select32 [5; 0; 2^63] [0] 2 = Some (191, 192) /\
   zlen (all_ones c02_ex) = 35 /\ IndexSelect32 c02_ex = Some [0; 32].
 Proof. vm_compute. intuition congruence. Qed.
+
+(** * range and monotonicity *)
+From Low Require Import Proofs.SelectExtra.
+
+(** under the size hypothesis [64 * len(words) < 2^31] every value involved fits Go's int32, so
+    the unbounded-[Z] statements above are statements about the int32 results *)
+Theorem C02_results_fit_int32 : forall ws i, 64 * zlen ws < 2 ^ 31 -> 0 <= i < zlen (all_ones ws) ->
+  0 <= fst (spec_Select ws i) < 2 ^ 31 /\ 0 <= snd (spec_Select ws i) < 2 ^ 31 /\ 0 <= i < 2 ^ 31.
+Proof. exact spec_Select_int32. Qed.
+Print Assumptions C02_results_fit_int32.
+
+Theorem C02_index_fits_int32 : forall ws x, 64 * zlen ws < 2 ^ 31 ->
+  In x (spec_IndexSelect32 ws) -> 0 <= x < 2 ^ 31.
+Proof. exact spec_IndexSelect32_int32. Qed.
+Print Assumptions C02_index_fits_int32.
+
+(** select is strictly increasing in i *)
+Theorem C02_select_increasing : forall ws i j, 0 <= i -> i < j < zlen (all_ones ws) ->
+  fst (spec_Select ws i) < fst (spec_Select ws j).
+Proof. exact spec_Select_increasing. Qed.
+Print Assumptions C02_select_increasing.
+
+Example C02_range_nonvacuous :
+  64 * zlen c02_ex < 2 ^ 31 /\ 0 <= 32 /\ 32 < 33 < zlen (all_ones c02_ex) /\
+  fst (spec_Select c02_ex 32) = 32 /\ fst (spec_Select c02_ex 33) = 191 /\
+  In 32 (spec_IndexSelect32 c02_ex).
+Proof. vm_compute. intuition congruence. Qed.
